@@ -117,8 +117,15 @@ fn average_gradient_color(points: &[GradientStop]) -> Color {
     }
 
     fn store_color(c: f32x4) -> Color {
+        // The weights sum to one only up to rounding, so clamp instead of unwrapping.
         let c: [f32; 4] = c.into();
-        Color::from_rgba(c[0], c[1], c[2], c[3]).unwrap()
+        Color::from_rgba(
+            c[0].bound(0.0, 1.0),
+            c[1].bound(0.0, 1.0),
+            c[2].bound(0.0, 1.0),
+            c[3].bound(0.0, 1.0),
+        )
+        .unwrap()
     }
 
     assert!(!points.is_empty());
@@ -132,30 +139,36 @@ fn average_gradient_color(points: &[GradientStop]) -> Color {
     // Bake 1/(colorCount - 1) uniform stop difference into this scale factor
     let w_scale = f32x4::splat(0.5);
 
+    // Match the position fixing of `Gradient::new`: positions are forced to be monotonic,
+    // otherwise an unsorted stop list yields negative weights and an out-of-range color.
+    let mut prev = points[0].position.get();
+    let first_pos = prev;
     for i in 0..points.len() - 1 {
         // Calculate the average color for the interval between pos(i) and pos(i+1)
         let c0 = load_color(points[i].color);
         let c1 = load_color(points[i + 1].color);
         // when pos == null, there are colorCount uniformly distributed stops, going from 0 to 1,
         // so pos[i + 1] - pos[i] = 1/(colorCount-1)
-        let w = points[i + 1].position.get() - points[i].position.get();
+        let curr = points[i + 1].position.get().bound(prev, 1.0);
+        let w = curr - prev;
         blend += w_scale * f32x4::splat(w) * (c1 + c0);
+        prev = curr;
     }
 
     // Now account for any implicit intervals at the start or end of the stop definitions
-    if points[0].position.get() > 0.0 {
+    if first_pos > 0.0 {
         // The first color is fixed between p = 0 to pos[0], so 0.5 * (ci + cj) * (pj - pi)
         // becomes 0.5 * (c + c) * (pj - 0) = c * pj
         let c = load_color(points[0].color);
-        blend += f32x4::splat(points[0].position.get()) * c;
+        blend += f32x4::splat(first_pos) * c;
     }
 
     let last_idx = points.len() - 1;
-    if points[last_idx].position.get() < 1.0 {
+    if prev < 1.0 {
         // The last color is fixed between pos[n-1] to p = 1, so 0.5 * (ci + cj) * (pj - pi)
         // becomes 0.5 * (c + c) * (1 - pi) = c * (1 - pi)
         let c = load_color(points[last_idx].color);
-        blend += (f32x4::splat(1.0) - f32x4::splat(points[last_idx].position.get())) * c;
+        blend += (f32x4::splat(1.0) - f32x4::splat(prev)) * c;
     }
 
     store_color(blend)
